@@ -14,6 +14,11 @@ Theorem C10_bool_gate_refuted_pinned :
 Proof. exact bool_gate_refuted_pinned. Qed.
 Print Assumptions C10_bool_gate_refuted_pinned.
 
+(* a target from the unchecked macros carries the empty signature: never accepted *)
+Theorem C10_bool_gate_empty_signature : accepts_bool [] = false /\ accepts_bool_pinned [] = false.
+Proof. split; reflexivity. Qed.
+Print Assumptions C10_bool_gate_empty_signature.
+
 Import Base X86 EncAmd64 Amd64Proofs Os OsProofs Amd64Install A64 EncArm64 Arm64Proofs.
 (* the stub, x86-64: from the entry, 3 or 4 instructions later control is at the caller's return address with
    RAX = 0/1 on all 64 bits (so AL is exactly the value), RSP popped by 8 (as after a normal return), every
